@@ -144,7 +144,10 @@ fn tokenize_with_includes(
                 let incpathref = Path::new(&incfilename);
                 // a file that includes itself, directly or indirectly, can't be loaded
                 let canonical_incname = canonical_name(&incfilename);
-                let loadresult = if include_stack.contains(&canonical_incname) {
+                // neither can a chain of include files that is nested deeper than the nesting limit
+                let loadresult = if include_stack.contains(&canonical_incname)
+                    || include_stack.len() > crate::a2ml::MAX_NESTING_DEPTH
+                {
                     None
                 } else {
                     loader::load(incpathref).ok()
